@@ -107,15 +107,24 @@ def main():
                 lines.append(run_line(m, shp[0], shp[1], shp[2], 7, PADS[shp[0] % len(PADS)], 0, rng.randrange(1 << 30), 'go', 1, 1))
     # many cells: every cell index must get its goroutine (and only its own rows)
     lines += gen_many_cells(rng, models, MANY_N if quick else MANY_N + [511], record_upto=129 if quick else 257, per_n=2 if quick else None)
+    # parameter-position streams on shared parameter sets / input blocks (kernels that write into what
+    # they were handed would hit their neighbours there)
+    special = gen_edge_cases(rng, models, rots=(0, 1, 2, 3, 4) if quick else tuple(range(5)) * 2)
+    special += gen_out_of_range(rng, models, per_model=1 if quick else 6)
+    lines += special
     # T = 0 crashes two kernels (known finding of C04, not a concurrency matter): use T >= 1 here
     lines = [l for l in lines if l.split()[5] != '0']
     results = run_cases(lines)
     fp_lines = [footprint_line(r) for (_, r, _) in results if r is not None and r.get('cells') is not None]
     fp_out = iter(run_model(fp_lines)) if fp_lines else iter([])
     n_acc = 0
+    rejected = set()
     max_cpg = 0
     digests = {}
     for i, (l, r, raw) in enumerate(results):
+        if r is None and is_special(l) and kernel_rejects(l):
+            rejected.add(l)
+            continue
         if r is None:
             c.count(l, nontrivial=False)
             c.violation('run_crash_%d.json' % i, {'kind': 'crash-in-Run', 'case_line': l, 'impl': raw})
@@ -153,15 +162,20 @@ def main():
         if not PRIVATE:
             pass
         tree_changed = (repo_state() != tree0) or not stable
-        rl = [l.rsplit(' ', 1)[0] + ' 0' for l in lines]          # no recorder: its mutex would hide races
+        sp = set(special)
+        shared_block = [l.rsplit(' ', 3)[0] + ' 0 ' + ' '.join(l.split()[-2:]) for l in lines
+                        if l in sp and l not in rejected and (l.split()[3] == '1' or l.split()[4] == '1')]
+        rl = [l.rsplit(' ', 3)[0] + ' 0 ' + ' '.join(l.split()[-2:]) for l in lines if l not in sp]
         if quick:
             rl = rl[::3][:60]
+        rl += shared_block          # exactly the shared-block parameter-position cases, all of them
+        race_stats['shared_block_cases'] = len(shared_block)
         # every fourth case on C-backed arrays (cdata over C.malloc memory)
-        rl = [l.replace(' go ', ' c ') if k % 4 == 3 else l for k, l in enumerate(rl)]
+        rl = [l.replace(' go ', ' c ') if (k % 4 == 3 and l not in shared_block) else l for k, l in enumerate(rl)]
         gmps = [1, 2, 16]
         race_stats['cases'] = len(rl)
         race_stats['gomaxprocs'] = gmps
-        base = {l.rsplit(' ', 1)[0]: d for l, d in digests.items()}   # C-backed cases have no plain counterpart: GOMAXPROCS only
+        base = {l.rsplit(' ', 3)[0] + ' 0 ' + ' '.join(l.split()[-2:]): d for l, d in digests.items()}   # C-backed cases have no plain counterpart: GOMAXPROCS only
         by_gmp = {}
         for gmp in gmps:
             out, bad = race_run(rb, rl, gmp)
@@ -176,7 +190,7 @@ def main():
                 if not r['ok']:
                     c.violation('race_run_%d.json' % gmp, {'kind': 'vectorised != single-cell under -race', 'GOMAXPROCS': gmp,
                                                            'case_line': l, 'fails': r['fails']})
-                want = base.get(l.rsplit(' ', 1)[0])
+                want = base.get(l)
                 if tree_changed:
                     want = None       # /repo changed while the check ran: plain and -race builds are not comparable
                 by_gmp.setdefault(l, set()).add(r.get('digest'))
